@@ -250,7 +250,9 @@ func c07Run(w *fw.W, idx int) {
 			c07Gensym(w, idx)
 		}
 	default:
-		if idx%8 == 5 {
+		if idx%32 == 9 {
+			c07Depth(w, idx) // c07_depth.go
+		} else if idx%8 == 5 {
 			c07Live(w, idx) // c07_live.go
 		} else {
 			c07Macros(w, idx)
